@@ -32,7 +32,9 @@ theorem strcmpS_eq_zero_iff : ∀ (a b : List Char), Bytes a → Bytes b → (st
 /-- BRIDGE `find_host(x, hostname)` is the predicate of `Opt.Rcmd.lookup` -/
 theorem find_host_bridge (e : Entry) (h : Str) (he : Bytes e.host) (hh : Bytes h) :
     find_host { hostname := e.host } h = some (if e.host = h then 1 else 0) := by
-  simp only [find_host, strcmpS_eq_zero_iff e.host h he hh]
+  have h1 := strcmpS_eq_zero_iff e.host h he hh
+  have h2 : ((0 : Int) = strcmpS e.host h) ↔ e.host = h := by rw [eq_comm]; exact h1
+  simp only [find_host, h1, h2]
 
 /-- the registry lookup of the model, written with the translated callback -/
 theorem lookup_bridge (reg : List Entry) (h : Str) (hr : ∀ e ∈ reg, Bytes e.host) (hh : Bytes h) :
@@ -54,7 +56,9 @@ theorem lookup_bridge (reg : List Entry) (h : Str) (hr : ∀ e ∈ reg, Bytes e.
 /-- BRIDGE `find_rcmd_module(x, name)` is name equality: membership in the list of loaded transports -/
 theorem find_rcmd_module_bridge (m t : Str) (hm : Bytes m) (ht : Bytes t) :
     find_rcmd_module { name := m } t = some (if m = t then 1 else 0) := by
-  simp only [find_rcmd_module, strcmpS_eq_zero_iff m t hm ht]
+  have h1 := strcmpS_eq_zero_iff m t hm ht
+  have h2 : ((0 : Int) = strcmpS m t) ↔ m = t := by rw [eq_comm]; exact h1
+  simp only [find_rcmd_module, h1, h2]
 
 theorem loaded_contains_bridge (loaded : List Str) (t : Str) (hl : ∀ m ∈ loaded, Bytes m) (ht : Bytes t) :
     loaded.contains t = loaded.any (fun m => find_rcmd_module { name := m } t != some 0) := by
